@@ -37,6 +37,19 @@ class FnCtx:
                     out.append((bb, t))
         return out
 
+    def calls_through(self, fx, *suffixes, depth=3):
+        """calls(...) plus calls to wrappers: functions of the analysed crates that call a matching function on every path from
+        entry to return (a block of statements extracted into a helper keeps its meaning as an event)"""
+        out = list(self.calls(*suffixes))
+        have = {bb for bb, t in out}
+        memo = fx.__dict__.setdefault("_must_call_memo", {})
+        for bb, t in self.mir.calls():
+            if bb in have or t.callee.indirect or t.callee.res_id not in fx.bodies:
+                continue
+            if must_call(fx, fx.bodies[t.callee.res_id], suffixes, memo, depth):
+                out.append((bb, t))
+        return out
+
     def arg(self, term, i):
         return self.eb.operand(term.args[i])
 
@@ -258,6 +271,27 @@ class FnCtx:
         return self.body.loc(line)
 
 
+def must_call(fx, body, suffixes, memo, depth=3):
+    """every entry -> return path of `body` passes a call matching `suffixes`, directly or through another such function"""
+    key = (body.id, tuple(suffixes))
+    if key in memo:
+        return memo[key]
+    memo[key] = False  # recursion guard
+    if depth <= 0 or body.mir is None or not body.is_fn_like():
+        return False
+    fc = FnCtx(body)
+    m = fc.mir
+    ev = {bb for bb, t in fc.calls(*suffixes)}
+    for bb, t in m.calls():
+        if bb not in ev and not t.callee.indirect and t.callee.res_id in fx.bodies and t.callee.res_id != body.id:
+            if must_call(fx, fx.bodies[t.callee.res_id], suffixes, memo, depth - 1):
+                ev.add(bb)
+    rets = set(m.return_blocks())
+    ok = bool(ev) and not (m.reachable(0, removed_blocks=list(ev)) & rets)
+    memo[key] = ok
+    return ok
+
+
 def variant_value(facts, adt_short, variant):
     a = facts.adt(adt_short)
     for i, v in enumerate(a["variants"]):
@@ -289,6 +323,53 @@ def closure_bodies_in(facts, fc, e):
                         if b is not None and b not in out:
                             out.append(b)
     return out
+
+
+def closure_env(parent_fc, kid):
+    """{captured variable name: expression in the parent's terms} for closure body `kid` defined in parent_fc's function"""
+    pm = parent_fc.mir
+    ops = None
+    for bb, i, s in pm.stmts():
+        if s.kind == "assign" and s.rv is not None and s.rv.kind == "aggregate" and s.rv.agg.get("k") in ("closure", "coroutine", "coroutine_closure") \
+                and s.rv.agg.get("def") == kid.id:
+            ops = s.rv.ops
+    if ops is None:
+        return {}
+    idx = {}
+    km = kid.mir
+
+    def scan(pl):
+        if pl is None or pl.local != 1:
+            return
+        for p in pl.proj:
+            if p[0] == "field":
+                idx.setdefault(p[4], p[1])
+                return
+            if p[0] != "deref":
+                return
+    for bb, i, s in km.stmts():
+        if s.kind != "assign" or s.rv is None:
+            continue
+        scan(s.rv.place)
+        for o in (s.rv.ops or []):
+            scan(o.place)
+    for bb, t in km.calls():
+        for a in t.args:
+            scan(a.place)
+    out = {}
+    for name, i in idx.items():
+        if isinstance(i, int) and i < len(ops):
+            out[name] = parent_fc.eb.operand(ops[i])
+    return out
+
+
+def subst_captures(e, env):
+    """replace references to captured variables (('param', 1, (name, ...)) in a closure body) by the parent's expression"""
+    if not isinstance(e, tuple):
+        return e
+    if e and e[0] == "param" and e[1] == 1 and len(e) > 2 and e[2] and e[2][0] in env:
+        return E.with_path(env[e[2][0]], e[2][1:]) if len(e[2]) > 1 else env[e[2][0]]
+    return tuple(subst_captures(x, env) if isinstance(x, tuple) else x for x in e)
 
 
 def field_adt(fc, op, field):
